@@ -189,11 +189,24 @@ static uint32_t vf_hash32(const void *data, size_t n) {
 
 /* ------------------------------------------------------------------ libc models (solver build) */
 #ifdef VF_CBMC
+static int vf_bad_rd(const void *p) {
+    if (__CPROVER_r_ok(p, 1)) return 0;
+    __CPROVER_assert(0, "C17.ini.oob: a string function was handed memory it may not read (unterminated string or stale pointer)");
+    return 1;
+}
+static int vf_bad_wr(void *p) {
+    if (__CPROVER_w_ok(p, 1)) return 0;
+    __CPROVER_assert(0, "C17.ini.oob.write: a string function was told to write outside the destination object");
+    return 1;
+}
+#define VF_BAD_RD(p) vf_bad_rd(p)
+#define VF_BAD_WR(p) vf_bad_wr(p)
 static char *vf_strstr(const char *h, const char *n) {
     for (;; h++) {
         size_t i = 0;
-        while (n[i] != 0 && h[i] == n[i]) i++;
+        for (;; i++) { if (VF_BAD_RD(n + i)) return NULL; if (n[i] == 0) break; if (VF_BAD_RD(h + i)) return NULL; if (h[i] != n[i]) break; }
         if (n[i] == 0) return (char *)h;
+        if (VF_BAD_RD(h)) return NULL;
         if (*h == 0) return NULL;
     }
 }
@@ -244,21 +257,66 @@ static int vf_snprintf(char *out, size_t size, const char *fmt, ...) {
 static int vf_vsnprintf(char *out, size_t size, const char *fmt, va_list ap) {
     return vf_vfmt(out, size, fmt, ap);
 }
+/* String functions with damage containment: a member that has already violated memory safety (reported by
+ * CBMC's built-in checks at the faulty access) would turn its strings symbolic, and exploring what the parser
+ * does with them costs minutes per member.  Each model below checks accessibility of every byte it touches;
+ * an inaccessible byte is reported (tag C17.ini.oob) and the function stops there with a definite result, so
+ * the member's execution stays concrete up to its end.  On well-behaved members the checks fold to true. */
+static size_t vf_strlen(const char *s) {
+    size_t n = 0;
+    for (;; n++) { if (VF_BAD_RD(s + n)) return n; if (s[n] == 0) return n; }
+}
+static int vf_strcmp(const char *a, const char *b) {
+    for (size_t i = 0;; i++) {
+        if (VF_BAD_RD(a + i) || VF_BAD_RD(b + i)) return 0;
+        unsigned char x = (unsigned char)a[i], y = (unsigned char)b[i];
+        if (x != y) return x < y ? -1 : 1;
+        if (x == 0) return 0;
+    }
+}
+static int vf_strncmp(const char *a, const char *b, size_t n) {
+    for (size_t i = 0; i < n; i++) {
+        if (VF_BAD_RD(a + i) || VF_BAD_RD(b + i)) return 0;
+        unsigned char x = (unsigned char)a[i], y = (unsigned char)b[i];
+        if (x != y) return x < y ? -1 : 1;
+        if (x == 0) return 0;
+    }
+    return 0;
+}
+static char *vf_strcpy(char *d, const char *s) {
+    for (size_t i = 0;; i++) { if (VF_BAD_RD(s + i) || VF_BAD_WR(d + i)) return d; d[i] = s[i]; if (s[i] == 0) return d; }
+}
+static char *vf_strncpy(char *d, const char *s, size_t n) {
+    size_t i = 0;
+    for (; i < n; i++) { if (VF_BAD_RD(s + i) || VF_BAD_WR(d + i)) return d; d[i] = s[i]; if (s[i] == 0) break; }
+    for (; i < n; i++) { if (VF_BAD_WR(d + i)) return d; d[i] = 0; }
+    return d;
+}
 /* byte-loop memcpy/memmove (CBMC's built-in models copy through a variable-length temporary) */
 static void *vf_memcpy(void *dst, const void *src, size_t n) {
     __CPROVER_assert(!__CPROVER_same_object(dst, src) || (const char *)dst + n <= (const char *)src || (const char *)src + n <= (const char *)dst,
                      "memcpy src/dst overlap");
-    for (size_t i = 0; i < n; i++) ((char *)dst)[i] = ((const char *)src)[i];
+    for (size_t i = 0; i < n; i++) { if (VF_BAD_RD((const char *)src + i) || VF_BAD_WR((char *)dst + i)) return dst; ((char *)dst)[i] = ((const char *)src)[i]; }
     return dst;
 }
 static void *vf_memmove(void *dst, const void *src, size_t n) {
     if (!__CPROVER_same_object(dst, src) || (const char *)dst <= (const char *)src) {
-        for (size_t i = 0; i < n; i++) ((char *)dst)[i] = ((const char *)src)[i];
+        for (size_t i = 0; i < n; i++) { if (VF_BAD_RD((const char *)src + i) || VF_BAD_WR((char *)dst + i)) return dst; ((char *)dst)[i] = ((const char *)src)[i]; }
     } else {
-        for (size_t i = n; i > 0; i--) ((char *)dst)[i - 1] = ((const char *)src)[i - 1];
+        for (size_t i = n; i > 0; i--) { if (VF_BAD_RD((const char *)src + i - 1) || VF_BAD_WR((char *)dst + i - 1)) return dst; ((char *)dst)[i - 1] = ((const char *)src)[i - 1]; }
     }
     return dst;
 }
+#undef strlen
+#undef strcmp
+#undef strncmp
+#undef strcpy
+#undef strncpy
+#define strlen vf_strlen
+#define strcmp vf_strcmp
+#define strncmp vf_strncmp
+#define strcpy vf_strcpy
+#define strncpy vf_strncpy
 #undef memcpy
 #undef memmove
 #undef strstr
